@@ -113,6 +113,7 @@ const (
 	AStatus      = "status"
 	AReadAPI     = "read_api"     // IsLeader, LeaderID, Token, Status
 	ARegister    = "register_cbs" // OnPromote/OnDemote re-registration
+	AStopStart   = "stop_then_start" // Stop followed at once by Start, in one goroutine (free-run plans only)
 )
 
 type Action struct {
